@@ -86,6 +86,31 @@ pub fn op(req: &Value) -> Value {
             let (w, c, r2) = touches();
             json!({"compile": r, "touches": [w, c, r2]})
         }
+        // compile twice in fresh scopes and render the error in every way a host can (Display, Debug, alternate
+        // forms, through the Box and on the value): the renderings of the first compilation and whether the second
+        // compilation rendered identically
+        "render" => {
+            let src = req["src"].as_str().unwrap_or("");
+            let one = |src: &str| -> Value {
+                let mut comp: xray::root_compilation_scope::RootCompilationScope<W, R, T> =
+                    xray::std_compilation_scope();
+                match comp.feed_file(src) {
+                    Ok(()) => json!("ok"),
+                    Err(e) => {
+                        let display = format!("{e}");
+                        let debug = format!("{e:?}");
+                        let alt = format!("{e:#}|{e:#?}");
+                        let unboxed = format!("{}|{:?}", *e, *e);
+                        let s = e.to_string();
+                        json!({"display": display, "debug": debug, "alt": alt, "unboxed": unboxed, "to_string": s})
+                    }
+                }
+            };
+            let a = one(src);
+            let b = one(src);
+            let same = a == b;
+            json!({"first": a, "same": same})
+        }
         // compile the same text `n` times in fresh scopes: the distinct outcomes (acceptance / error class+text)
         "repeat" => {
             let src = req["src"].as_str().unwrap_or("");
